@@ -278,17 +278,19 @@ Proof.
 Qed.
 
 Theorem prerepl_image fs0 tens sc c s1 d m :
+  sc_par sc = None ->
   src_wf fs0 tens sc ->
   InvA fs0 tens sc s1 ->
   PreRepl fs0 tens sc c s1 d m ->
   d = image fs0 tens (sc_tensors sc).
 Proof.
-  intros Hsrc HA (s3 & s4 & HB1 & HT & Hl).
+  intros Hser Hsrc HA (s3 & s4 & HB1 & HT & Hl).
   set (dest := dest_of fs0 (sc_req sc)) in *.
   set (tmpf := tmpf_of sc dest) in *.
   assert (Hres : resolve (s_fs s1) tmpf = tmpf).
   { destruct HA as [[HF _] _]. apply (resolve_S fs0 (T (sc_tmpd sc)) s1 tmpf HF). apply T_tmpf. }
-  unfold B1 in HB1. fold dest in HB1. fold tmpf in HB1. rewrite exec_seq, exec_pacts in HB1.
+  rewrite (B1_serial fs0 tens sc Hser) in HB1. unfold B1ser in HB1. fold dest in HB1. fold tmpf in HB1.
+  rewrite exec_seq, exec_pacts in HB1.
   destruct (exec_acts c [AOpenW tmpf] s1) as [s2 r2] eqn:E2.
   destruct r2; try discriminate.
   apply exec_acts_cons_ok in E2. destruct E2 as (s2' & Hs & Hr). simpl in Hr. inversion Hr; subst s2'. clear Hr.
@@ -323,6 +325,7 @@ Proof.
 Qed.
 
 Lemma interrupt_atomic_image fs0 tens small sc c :
+  sc_par sc = None ->
   single_wf fs0 sc -> src_wf fs0 tens sc ->
   let dest := dest_of fs0 (sc_req sc) in
   let s := fst (run c fs0 tens small sc) in
@@ -330,13 +333,14 @@ Lemma interrupt_atomic_image fs0 tens small sc c :
   \/ exists m, lookup (s_fs s) dest = Some (File (image fs0 tens (sc_tensors sc)) m)
        /\ In (OReplace (tmpf_of sc dest) dest) (s_trace s).
 Proof.
-  intros Hwf Hsrc. cbv zeta.
+  intros Hser Hwf Hsrc. cbv zeta.
   destruct (interrupt_atomic fs0 tens small sc Hwf c) as [H|(d & m & Hl & Hin & s1 & HA & HP)].
   - left. exact H.
-  - right. exists m. rewrite <- (prerepl_image fs0 tens sc c s1 d m Hsrc HA HP). split; assumption.
+  - right. exists m. rewrite <- (prerepl_image fs0 tens sc c s1 d m Hser Hsrc HA HP). split; assumption.
 Qed.
 
 Lemma crash_atomic_image fs0 tens small sc k :
+  sc_par sc = None ->
   single_wf fs0 sc -> src_wf fs0 tens sc ->
   let dest := dest_of fs0 (sc_req sc) in
   let s := fst (run_prefix k fs0 tens small sc) in
@@ -345,6 +349,150 @@ Lemma crash_atomic_image fs0 tens small sc k :
    \/ exists m, lookup (s_fs s) dest = Some (File (image fs0 tens (sc_tensors sc)) m)
         /\ In (OReplace (tmpf_of sc dest) dest) (s_trace s)).
 Proof.
-  intros Hwf Hsrc. cbv zeta. split; [apply prefix_len|].
-  apply (interrupt_atomic_image fs0 tens small sc _ Hwf Hsrc).
+  intros Hser Hwf Hsrc. cbv zeta. split; [apply prefix_len|].
+  apply (interrupt_atomic_image fs0 tens small sc _ Hser Hwf Hsrc).
+Qed.
+
+(* ---- the parallel writer: preallocation to [total] zero bytes, then the same writes through an r+b handle *)
+Definition image_from (fs0 : fsT) (tens : list tstate) (f0 : list byte) (l : list (nat * tspec)) : list byte :=
+  fold_left (fun g x => write_at g (fst x) (tensor_bytes fs0 tens (snd x))) l f0.
+
+Lemma firstn_repeat_all {A} (x : A) n : firstn n (repeat x n) = repeat x n.
+Proof. rewrite <- (repeat_length x n) at 1. apply firstn_all. Qed.
+
+Theorem prerepl_image_par fs0 tens sc c s1 d m total :
+  sc_par sc = Some total ->
+  src_wf fs0 tens sc ->
+  InvA fs0 tens sc s1 ->
+  PreRepl fs0 tens sc c s1 d m ->
+  d = image_from fs0 tens (repeat 0%N total) (sc_tensors sc).
+Proof.
+  intros Hpar Hsrc HA (s3 & s4 & HB1 & HT & Hl).
+  set (dest := dest_of fs0 (sc_req sc)) in *.
+  set (tmpf := tmpf_of sc dest) in *.
+  assert (Hres : forall s, InvA fs0 tens sc s -> resolve (s_fs s) tmpf = tmpf).
+  { intros s [[HF _] _]. apply (resolve_S fs0 (T (sc_tmpd sc)) s tmpf HF). apply T_tmpf. }
+  unfold B1, writer in HB1. rewrite Hpar in HB1. unfold writer_parallel in HB1. fold dest in HB1. fold tmpf in HB1.
+  rewrite exec_seq in HB1.
+  (* preallocation *)
+  destruct (exec c (PSeq (PActs [AOpenW tmpf]) (PTry (PActs [ATruncate total]) (PActs [AClose]))) s1) as [sp rp] eqn:Ep.
+  destruct rp; try discriminate.
+  rewrite exec_seq, exec_pacts in Ep.
+  destruct (exec_acts c [AOpenW tmpf] s1) as [s2 r2] eqn:E2. destruct r2; try discriminate.
+  apply exec_acts_cons_ok in E2. destruct E2 as (s2' & Hs & Hr). simpl in Hr. inversion Hr; subst s2'. clear Hr.
+  assert (HA2 : InvA fs0 tens sc s2).
+  { eapply step_IA; [|exact HA|exact Hs]. apply okA_openw. }
+  assert (HC2 : Cont fs0 sc [] s2).
+  { simpl in Hs. rewrite (Hres s1 HA) in Hs.
+    destruct (lookup (s_fs s1) tmpf) as [[f0 m0| |t]|] eqn:El; try discriminate.
+    - inversion Hs; subst. split; [reflexivity|]. exists m0. simpl. apply lookup_insert_eq.
+    - destruct (parent_ok (s_fs s1) tmpf); try discriminate. inversion Hs; subst.
+      split; [reflexivity|]. exists default_mode. simpl. apply lookup_insert_eq. }
+  rewrite exec_try, !exec_pacts in Ep.
+  destruct (exec_acts c [ATruncate total] s2) as [st rt] eqn:Et.
+  destruct rt as [ |e| ]; cbv iota beta in Ep; rewrite ?exec_pacts in Ep.
+  2:{ destruct (exec_acts c [AClose] st) as [sy [ |e'| ]]; discriminate. }
+  2:{ discriminate. }
+  apply exec_acts_cons_ok in Et. destruct Et as (st' & Hst & Hrt). simpl in Hrt. inversion Hrt; subst st'. clear Hrt.
+  assert (HAt : InvA fs0 tens sc st) by (eapply step_IA; [|exact HA2|exact Hst]; reflexivity).
+  assert (Hzt : exists mz, lookup (s_fs st) tmpf = Some (File (repeat 0%N total) mz)).
+  { destruct HC2 as [Hfd (m0 & Hl0)]. simpl in Hst. rewrite Hfd, Hl0 in Hst. inversion Hst; subst. cbn [s_fs with_fs log].
+    exists m0. rewrite lookup_insert_eq. cbn [app length]. rewrite Nat.sub_0_r, firstn_repeat_all. reflexivity. }
+  apply exec_acts_cons_ok in Ep. destruct Ep as (sp' & Hsp & Hrp). simpl in Hrp, Hsp.
+  inversion Hrp; subst sp'. inversion Hsp; subst sp. clear Hrp Hsp.
+  assert (HAp : InvA fs0 tens sc (with_fd (log OClose st) None 0)).
+  { eapply step_IA with (a := AClose) (s := st); [reflexivity|exact HAt|reflexivity]. }
+  destruct Hzt as (mz & Hzt).
+  (* the tasks *)
+  destruct (sc_tensors sc) as [|[off0 sp0] r] eqn:Ets.
+  { (* no tensor: nothing is written *)
+    rewrite exec_pacts in HB1. simpl in HB1. inversion HB1; subst s3.
+    unfold TAILPRE in HT. fold dest in HT. fold tmpf in HT.
+    apply exec_acts_app_ok in HT. destruct HT as (s5 & H5 & HT).
+    apply releases_fs in H5. simpl in H5.
+    apply exec_acts_cons_ok in HT. destruct HT as (s6 & Hs6 & HT). simpl in Hs6. inversion Hs6; subst s6. clear Hs6.
+    destruct (exists_ fs0 dest).
+    - apply exec_acts_cons_ok in HT. destruct HT as (s7 & Hs7 & HT). simpl in HT. inversion HT; subst s7. clear HT.
+      simpl in Hs7. rewrite H5 in Hs7. unfold resolve in Hs7. rewrite Hzt in Hs7. cbv iota beta in Hs7.
+      destruct (file_at (s_fs st) dest) as [[d0 m0]|]; try discriminate.
+      rewrite ?Hzt in Hs7. inversion Hs7; subst s4. cbn [s_fs with_fs log] in Hl. rewrite lookup_insert_eq in Hl.
+      inversion Hl. reflexivity.
+    - simpl in HT. inversion HT; subst s4. simpl in Hl. rewrite H5, Hzt in Hl. inversion Hl. reflexivity. }
+  rewrite exec_seq, exec_pacts in HB1.
+  destruct (exec_acts c (cb_acts (sc_cb sc) (sc_cbbase sc)) (with_fd (log OClose st) None 0)) as [sc1 rc1] eqn:Ec1.
+  destruct rc1; try discriminate.
+  assert (HAc : InvA fs0 tens sc sc1).
+  { eapply acts_IA; [|exact HAp|exact Ec1]. eapply forallb_impl; [apply wr_okA|apply cb_wr]. }
+  assert (Hzc : lookup (s_fs sc1) tmpf = Some (File (repeat 0%N total) mz)).
+  { destruct (sc_cb sc) as [[[j e]|]|]; cbn [cb_acts] in Ec1.
+    - apply exec_acts_cons_ok in Ec1. destruct Ec1 as (sx & Hsx & Hrx). simpl in Hsx, Hrx. inversion Hrx; subst.
+      destruct (Nat.eqb (sc_cbbase sc) j); inversion Hsx; subst; exact Hzt.
+    - apply exec_acts_cons_ok in Ec1. destruct Ec1 as (sx & Hsx & Hrx). simpl in Hsx, Hrx. inversion Hrx; subst.
+      inversion Hsx; subst; exact Hzt.
+    - simpl in Ec1. inversion Ec1; subst. exact Hzt. }
+  rewrite exec_seq, exec_pacts in HB1.
+  destruct (exec_acts c [AOpenRW tmpf] sc1) as [so ro] eqn:Eo. destruct ro; try discriminate.
+  apply exec_acts_cons_ok in Eo. destruct Eo as (so' & Hso & Hro). simpl in Hro. inversion Hro; subst so'. clear Hro.
+  assert (HAo : InvA fs0 tens sc so) by (eapply step_IA; [|exact HAc|exact Hso]; apply okA_openrw).
+  assert (HCo : Cont fs0 sc (repeat 0%N total) so).
+  { simpl in Hso. rewrite (Hres sc1 HAc), Hzc in Hso. inversion Hso; subst. split; [reflexivity|]. exists mz. exact Hzc. }
+  rewrite exec_try, !exec_pacts in HB1.
+  destruct (exec_acts c (ASeek off0 :: tofile_acts tens (sc_chunk sc) sp0
+                         ++ tensors_acts tens (sc_chunk sc) (sc_cb sc) (S (sc_cbbase sc)) r) so) as [sx rx] eqn:Ex.
+  destruct rx as [ |e| ]; cbv iota beta in HB1; rewrite ?exec_pacts in HB1.
+  2:{ destruct (exec_acts c [AClose] sx) as [sy [ |e'| ]]; discriminate. }
+  2:{ discriminate. }
+  apply exec_acts_cons_ok in Ex. destruct Ex as (sk & Hsk & Ex).
+  pose proof (step_IA fs0 tens sc (ASeek off0) so sk eq_refl HAo Hsk) as HAk.
+  assert (HCk : Cont fs0 sc (repeat 0%N total) sk /\ s_pos sk = off0).
+  { simpl in Hsk. destruct HCo as [Hfd Hlo]. rewrite Hfd in Hsk. inversion Hsk; subst. simpl.
+    split; [split; [reflexivity|exact Hlo]|reflexivity]. }
+  destruct HCk as [HCk Hpk].
+  apply exec_acts_app_ok in Ex. destruct Ex as (s3t & H3t & Ex).
+  destruct (tofile_Cont fs0 tens sc Hsrc c sp0 _ sk s3t HCk HAk H3t) as [HC3 HA3]. rewrite Hpk in HC3.
+  pose proof (tensors_Cont fs0 tens sc Hsrc c _ _ _ _ _ _ HC3 HA3 Ex) as HCx.
+  apply exec_acts_cons_ok in HB1. destruct HB1 as (s3' & Hs3 & Hr3). simpl in Hs3, Hr3.
+  inversion Hr3; subst s3'. inversion Hs3; subst s3. clear Hr3 Hs3.
+  destruct HCx as [_ (mx & Hlx)]. fold dest in Hlx. fold tmpf in Hlx.
+  unfold TAILPRE in HT. fold dest in HT. fold tmpf in HT.
+  apply exec_acts_app_ok in HT. destruct HT as (s5 & H5 & HT).
+  apply releases_fs in H5. simpl in H5.
+  apply exec_acts_cons_ok in HT. destruct HT as (s6 & Hs6 & HT). simpl in Hs6. inversion Hs6; subst s6. clear Hs6.
+  unfold image_from. simpl fold_left.
+  destruct (exists_ fs0 dest).
+  - apply exec_acts_cons_ok in HT. destruct HT as (s7 & Hs7 & HT). simpl in HT. inversion HT; subst s7. clear HT.
+    simpl in Hs7. rewrite H5 in Hs7. unfold resolve in Hs7. rewrite Hlx in Hs7. cbv iota beta in Hs7.
+    destruct (file_at (s_fs sx) dest) as [[d0 m0]|]; try discriminate.
+    rewrite ?Hlx in Hs7. inversion Hs7; subst s4. cbn [s_fs with_fs log] in Hl. rewrite lookup_insert_eq in Hl.
+    inversion Hl. reflexivity.
+  - simpl in HT. inversion HT; subst s4. simpl in Hl. rewrite H5, Hlx in Hl. inversion Hl. reflexivity.
+Qed.
+
+Lemma interrupt_atomic_image_par fs0 tens small sc c total :
+  sc_par sc = Some total ->
+  single_wf fs0 sc -> src_wf fs0 tens sc ->
+  let dest := dest_of fs0 (sc_req sc) in
+  let s := fst (run c fs0 tens small sc) in
+  lookup (s_fs s) dest = lookup fs0 dest
+  \/ exists m, lookup (s_fs s) dest = Some (File (image_from fs0 tens (repeat 0%N total) (sc_tensors sc)) m)
+       /\ In (OReplace (tmpf_of sc dest) dest) (s_trace s).
+Proof.
+  intros Hpar Hwf Hsrc. cbv zeta.
+  destruct (interrupt_atomic fs0 tens small sc Hwf c) as [H|(d & m & Hl & Hin & s1 & HA & HP)].
+  - left. exact H.
+  - right. exists m. rewrite <- (prerepl_image_par fs0 tens sc c s1 d m total Hpar Hsrc HA HP). split; assumption.
+Qed.
+
+Lemma crash_atomic_image_par fs0 tens small sc k total :
+  sc_par sc = Some total ->
+  single_wf fs0 sc -> src_wf fs0 tens sc ->
+  let dest := dest_of fs0 (sc_req sc) in
+  let s := fst (run_prefix k fs0 tens small sc) in
+  length (s_trace s) <= k /\
+  (lookup (s_fs s) dest = lookup fs0 dest
+   \/ exists m, lookup (s_fs s) dest = Some (File (image_from fs0 tens (repeat 0%N total) (sc_tensors sc)) m)
+        /\ In (OReplace (tmpf_of sc dest) dest) (s_trace s)).
+Proof.
+  intros Hpar Hwf Hsrc. cbv zeta. split; [apply prefix_len|].
+  apply (interrupt_atomic_image_par fs0 tens small sc _ total Hpar Hwf Hsrc).
 Qed.
